@@ -24,7 +24,7 @@ THEOREMS = [
     'AbacusVerif.Fields.deps_ok',
     'AbacusVerif.Fields.column_independent',
     'AbacusVerif.Fields.column_independent_pair',
-    'AbacusVerif.Fields.no_request_dependent_failure',
+    'AbacusVerif.Fields.no_request_dependent_failure_partial',
     'AbacusVerif.Fields.setupFields_index_cols',
     'AbacusVerif.Fields.generated_wf',
     'AbacusVerif.Fields.generated_wf2',
